@@ -1327,4 +1327,58 @@ example : PktNum.implUpdate 0 (PktNum.implDecode (2 ^ 32) (2 ^ 62) 0 0x3fa69012)
     PktNum.implDecode (2 ^ 8) (2 ^ 62) 1067880466 1 = 1067880449 := by decide
 
 end ZeroRtt
+/-! ### 0-RTT: the losses, on concrete sessions (toy AEAD, kernel-evaluated) -/
+namespace ExZr
+open TLX.Props.C02Session.Ex TLX.Quic.SessionToy
+
+/-- the resumed session's suite is `sel` (0x1301); the ClientHello lists 0x1303 first -/
+def selFirst : SuiteSel := ⟨.sha256, .chachaPoly, 32⟩
+
+/-- the client's 0-RTT packet: STREAM data `EARLY`, protected with the early key of the RESUMED suite -/
+def xz : SPkt :=
+  { level := .zeroRtt, srv := false, ts := 5, pn := 0, pnLen := 1, typeBits := 1, scid := [0xc1], dcid := [0x51],
+    frames := [.stream false ⟨0, Ex.w1⟩ none (some Ex.w1) [0x45, 0x41, 0x52, 0x4c, 0x59], .padding 3] }
+def pz : Pkt := emit Toy.laws.aeadSeal sel.alg (dirKeys sel .v1 [5]) xz
+
+/-- the client's next 1-RTT packet: number 1, STREAM data `LATE` -/
+def x1 : SPkt :=
+  { level := .oneRtt, srv := false, ts := 9, pn := 1, pnLen := 1, dcid := [0x51], gen := 0,
+    frames := [.stream true ⟨0, Ex.w1⟩ (some ⟨5, Ex.w1⟩) (some Ex.w1) [0x4c, 0x41, 0x54, 0x45], .padding 3] }
+def p1 : Pkt := emit1 params Toy.laws sel .v1 k0 x1
+
+/-- (D) the session as it is BEFORE the ClientHello is complete in the CRYPTO stream — no Early decryptor yet: the genuine
+    0-RTT packet is dropped (KeyError), nothing is exported, nothing else changes. RFC-conformant: a ClientHello may span
+    several Initial packets, and 0-RTT packets may be coalesced with the first. -/
+theorem zero_rtt_before_client_hello_counterexample :
+    (streamData xz.frames).flatten = [0x45, 0x41, 0x52, 0x4c, 0x59] ∧
+    stepPkt params s0 pz = { st := s0, caught := some .key, escaped := none } :=
+  ⟨by decide, zero_rtt_dropped_without_key params s0 pz (by decide) (by decide) rfl⟩
+
+/-- … whereas the same packet in a session that holds the early key of the resumed suite is exported -/
+theorem zero_rtt_with_key_exported :
+    ((stepPkt params { s0 with decEarly := some { alg := sel.alg, server := none, client := dirKeys sel .v1 [5] } } pz).st.out.map
+      fun o => (o.ts, o.isServer, (frameOf o).data)) = [(5, false, [0x45, 0x41, 0x52, 0x4c, 0x59])] := by decide +kernel
+
+/-- (B) the session after the ClientHello when the FIRST OFFERED suite (0x1303) is not the resumed one (0x1301): the Early
+    decryptor and the early header-protection key exist, derived for 0x1303. The dissector unprotects the 0-RTT packet's
+    header with that wrong key: the packet-number bytes it reports are garbage (here the four bytes the real tool read in
+    `harness/c02_0rtt_replay.py`, case B). -/
+def sB : St Bool := { s0 with decEarly := some { alg := selFirst.alg, server := none, client := dirKeys selFirst .v1 [5] } }
+def pzGarbled : Pkt := { pz with pn := some [0x3f, 0xa6, 0x90, 0x12] }
+
+/-- RFC-conformant client (RFC 8446 §4.2.11: the resumed suite may stand anywhere in the list), yet:
+    1. the 0-RTT packet is rejected by the AEAD, nothing is exported —
+    2. but the garbage packet number 0x3fa69012 is now the largest one of the client's application space;
+    3. the client's NEXT 1-RTT packet (number 1, `LATE`), which the session exports when it comes first (4.),
+       is reconstructed next to the garbage, rejected and lost: `output_buffer` stays empty. -/
+theorem zero_rtt_first_offered_suite_counterexample :
+    (stepPkt params sB pzGarbled).caught.isSome = true ∧ (stepPkt params sB pzGarbled).st.out = [] ∧
+    (stepPkt params sB pzGarbled).st.pnClient.app = 1067880466 ∧
+    (stepPkt params (stepPkt params sB pzGarbled).st p1).caught.isSome = true ∧
+    (stepPkt params (stepPkt params sB pzGarbled).st p1).st.out = [] ∧
+    ((stepPkt params sB p1).st.out.map fun o => (o.ts, o.isServer, (frameOf o).data)) =
+      [(9, false, [0x4c, 0x41, 0x54, 0x45])] := by
+  decide +kernel
+
+end ExZr
 end TLX.Props.C02Capstone3
